@@ -40,6 +40,18 @@ def harness(sym):
         e = rig.engine
         with sym.concrete():
             mb = EngineMessageBuilder(e, "", False)
+        # optional environment fault: the hardware read of one tick fails (HardwareLayerException -> error state)
+        from openpectus.engine.hardware import HardwareLayerException
+        hw = e.uod.hwl
+        orig_read_batch = hw.read_batch
+        fault = {"on": False}
+
+        def read_batch(registers):
+            if fault["on"]:
+                raise HardwareLayerException("harness read fault")
+            return orig_read_batch(registers)
+        hw.read_batch = read_batch
+        cmds = CMDS + (["Fault"] if sym.shard.get("faults") else [])
         trace = []
         run_ids = []
         restart_possible = "Restart" in TEMPLATES[tname]
@@ -49,10 +61,11 @@ def harness(sym):
                 c = "none"
             else:
                 j = i if i == 0 else i - warm
-                c = prefix[j] if j < len(prefix) else sym.choice(f"c{j}", CMDS)
+                c = prefix[j] if j < len(prefix) else sym.choice(f"c{j}", cmds)
             trace.append(c)
             st = rig.system_state
-            if c != "none":
+            fault["on"] = c == "Fault"
+            if c not in ("none", "Fault"):
                 cs = mb.create_control_state_msg().control_state
                 restarting = st == "Restarting"
                 want = _valid(c, cs.is_running, cs.is_paused, cs.is_holding, restarting)
@@ -87,9 +100,18 @@ def harness(sym):
 
 
 def _shards(tier):
+    fa = CMDS + ["Fault"]
+    faults = [{"n": 3, "template": "marks", "cmds": [a], "faults": True} for a in fa] + \
+             [{"n": 4, "template": "marks", "cmds": ["Start", a], "faults": True} for a in fa]
     if tier == "quick":
-        return [{"n": 4, "template": t, "cmds": ["Start", a]} for t in TEMPLATES for a in CMDS] + \
+        return faults + [{"n": 4, "template": t, "cmds": ["Start", a]} for t in TEMPLATES for a in CMDS] + \
                [{"n": 3, "template": "marks", "cmds": [a]} for a in CMDS if a != "Start"]
+    faults = [{"n": 4, "template": "marks", "cmds": [a], "faults": True} for a in fa] + \
+             [{"n": 5, "template": "marks", "cmds": ["Start", a], "faults": True} for a in fa]
+    return faults + _shards_thorough()
+
+
+def _shards_thorough():
     return [{"n": 6, "template": t, "cmds": ["Start", a, b]} for t in TEMPLATES for a in CMDS for b in CMDS] + \
            [{"n": 4, "template": "marks", "cmds": [a]} for a in CMDS if a != "Start"]
 
